@@ -375,7 +375,16 @@ pub async fn run_local_idle() {
     sim::mark_nontrivial();
     let mut cfg = EndpointCfg::default_cfg();
     cfg.idle_time_out = Some(t_ms);
-    let peer_open = peer::open("peer", Some(65536), Some(255), None);
+    // the peer may advertise an idle time-out of its own: the endpoint then keeps writing
+    // heartbeats while the peer is silent, which must not postpone the endpoint's own deadline
+    let peer_idle: Option<u32> = match choice(4) {
+        0 => None,
+        1 => Some(t_ms / 4),
+        2 => Some(t_ms / 2),
+        _ => Some(t_ms * 2),
+    };
+    sim::append_config(&format!(" peer-idle-time-out={:?}", peer_idle));
+    let peer_open = peer::open("peer", Some(65536), Some(255), peer_idle);
     let mut models = Models::none();
     models.conn = true;
     let mut peer: Peer;
